@@ -67,7 +67,10 @@ func main() {
 	r.Assume("file creation, truncation and deletion are durable immediately (directory entries are not subject to loss in the crash model); only WriteAt data not covered by a later Sync of the same file can be lost or torn")
 	r.Assume("the relative order in which a Cursor walks key/value pairs and nested buckets is not fixed by interface.go; the reference uses: all pairs in byte order, then all nested buckets in byte order")
 	r.Assume("after a modification of a bucket other than Cursor.Delete its cursors are unpredictable until repositioned (interface.go); such cursor reads are not compared")
-	r.Assume("treap node priorities come from math/rand (seeded by the package); tree shapes are not enumerated, only contents and iteration order are compared")
+	r.Assume("treap node priorities come from math/rand; tree shapes are not enumerated (contents and iteration order are compared); every violation is confirmed 3x under a fixed math/rand seed that is stored in the replay file")
+	r.Assume("Cursor.Seek is specified for key/value pairs only: when no pair >= the seek key exists and the bucket has nested buckets, where the cursor lands is not compared")
+	r.Assume("which blocks a PruneBlocks call removes is implementation-defined; demanded: they are stored blocks, oldest first, and they disappear atomically with the transaction")
+	r.Assume("error codes of misuse calls that the property does not mention (Put/Delete on a bucket name, Delete of an empty key, Cursor.Delete in a read-only tx) are probed and reported under documented_contract_probes, not as violations")
 
 	viols := &violSet{}
 	budget := 175 * time.Second
@@ -101,7 +104,8 @@ func main() {
 		// Add {"sched", partSched, <quick seconds>, <thorough seconds>} with
 		//     func partSched(r *ev.Run, v *violSet)
 		// Report failures with v.add("sched/<class>", what, replayObj{Part: "d", ...}, size)
-		// and extend replayOne() below with a case for Part == "d".
+		// and extend replayKey() below with a case for Part == "d" (replays and the
+		// 3x confirmation under fixed seeds go through it).
 		// ------------------------------------------------------------------
 	}
 	only := os.Getenv("C05_PARTS") // development aid: comma separated part names
@@ -126,6 +130,33 @@ func main() {
 		times[p.name] = time.Since(t0).Seconds()
 	}
 	r.Set("part_wall_seconds", times)
+	// exact bounds / alphabets of every part in one place
+	seqB := map[string]interface{}{}
+	for _, sc := range scenarios(r) {
+		var cfgs []string
+		for _, c := range sc.Cfgs {
+			cfgs = append(cfgs, c.String())
+		}
+		seqB[sc.Name] = map[string]interface{}{"cfgs(file_size/flush)": cfgs, "inner_op_budget": sc.Depth, "max_committed_tx": sc.MaxTx, "max_reopen_steps": sc.Reopen, "held_reader": sc.Hold, "writable_tx_ops": sc.WOps, "readonly_tx_ops": sc.ROps}
+	}
+	var hs []map[string]string
+	for _, h := range ioHistories() {
+		hs = append(hs, map[string]string{"name": h.Name, "cfg": h.Cfg.String(), "steps": histString(h.Steps)})
+	}
+	r.Set("bounds", map[string]interface{}{
+		"keys": keyNames, "bucket_paths": bucketUniverse, "user_root_bucket": string(userRoot),
+		"block_sizes":         []int{len(blocks[0].raw), len(blocks[1].raw), len(blocks[2].raw)},
+		"max_block_file_size": map[string]uint32{fsTiny: maxFileSize(fsTiny), fsFit2: maxFileSize(fsFit2), fsLarge: 512 * 1024 * 1024},
+		"regions_per_block(offset,len;L=block length)": "(0,L) (3,5) (L,0) (0,L+1) (L,1) (L-1,2) (1,L+11) (0xffffffff,2) (0,0xffffffff)",
+		"seq_scenarios":                         seqB,
+		"tx_kinds":                              "Begin(true)+Commit/Rollback, Update (nil / error return), Begin(false)+Rollback/Commit, View; every op path under both writable kinds and both read-only kinds",
+		"treap":                                 map[string]interface{}{"immutable_alphabet": immAlphabet, "immutable_max_ops": r.Pick(6, 7), "mutable_alphabet": mutAlphabet, "mutable_max_ops": r.Pick(5, 6), "keys": tKeys, "iterator_ranges": treapRanges, "seek_probes": iterProbes},
+		"io_histories":                          hs,
+		"fault_kinds":                           "error on OpenWrite/OpenRead/WriteAt/ReadAt/Sync/Truncate/Delete; short write (half the bytes) on WriteAt; second fault = error on every call of the rollback",
+		"crash_unsynced_subset_cap_bits":        r.Pick(4, 10),
+		"crash_torn_last_write":                 "0 (dropped) / half / full",
+		"violations_confirmed_under_rand_seeds": "1..8, 3 runs each",
+	})
 
 	// confirm every violation 3x on fresh instances before printing it
 	keys := make([]string, 0, len(viols.m))
